@@ -227,8 +227,12 @@ def run_universe(R, seed, uid, tier, only=None):
                 R.skip('published schema does not compile (C06 matter)')
                 R.count('schema_does_not_compile')
                 continue
-            R.violation('application/WSDL construction failed for a generated universe: %r' % e, {'seed': seed, 'uid': uid, 'kind': kind},
-                        mech='build_failed:%s:%s' % (type(e).__name__, drive.innermost_spyne_frame(e)))
+            # spyne refused the signature when the application was constructed: there is no service to talk to,
+            # so the wire-fidelity statement does not apply (recorded, not judged)
+            R.skip('universe rejected at construction: %s' % type(e).__name__)
+            R.count('universe_rejected_at_construction')
+            if len(R.notes) < 6:
+                R.notes.append('construction rejected (seed %s uid %s): %r at %s' % (seed, uid, e, drive.innermost_spyne_frame(e)))
             continue
         R.count('apps_built')
         for sd in ir['services']:
